@@ -21,6 +21,7 @@ pub(crate) struct Chip {
     /// VALUES last programmed (C17: what reaches the chip is what the caller requested): RF frequency, TX power,
     /// modulation-parameter frequency, and the frequency / RX mode in force when a transmission / reception was started
     pub freq: u32, pub power: i32, pub power_tx_prep: bool, pub power_freq: Option<u32>, pub started_freq: u32, pub started_rx: Option<RxMode>, pub payload_len: usize, pub pkt_len: u8,
+    pub mod_sf: Option<SpreadingFactor>, pub mod_bw: Option<Bandwidth>, pub mod_freq: u32,
 }
 impl Chip {
     fn cmd(&mut self) -> Result<(), RadioError> {
@@ -50,7 +51,7 @@ impl RadioKind for Chip {
     fn set_sleep(&mut self, warm: bool, _d: &mut impl DelayNs) -> Result<(), RadioError> { self.cmd()?; self.asleep = true; self.standby = false; if !warm { self.lose_config(); } Ok(()) }
     fn set_tx_rx_buffer_base_address(&mut self, _t: usize, _r: usize) -> Result<(), RadioError> { self.cmd() }
     fn set_tx_power_and_ramp_time(&mut self, p: i32, m: Option<&ModulationParams>, t: bool) -> Result<(), RadioError> { self.cmd()?; self.power = p; self.power_tx_prep = t; self.power_freq = m.map(|x| x.frequency_in_hz); Ok(()) }
-    fn set_modulation_params(&mut self, _m: &ModulationParams) -> Result<(), RadioError> { self.cmd()?; self.modulation = true; Ok(()) }
+    fn set_modulation_params(&mut self, m: &ModulationParams) -> Result<(), RadioError> { self.cmd()?; self.modulation = true; self.mod_sf = Some(m.spreading_factor); self.mod_bw = Some(m.bandwidth); self.mod_freq = m.frequency_in_hz; Ok(()) }
     fn set_packet_params(&mut self, p: &PacketParams) -> Result<(), RadioError> { self.cmd()?; self.packet = true; self.pkt_len = p.payload_length; Ok(()) }
     fn calibrate_image(&mut self, _f: u32) -> Result<(), RadioError> { self.cmd() }
     fn set_channel(&mut self, f: u32) -> Result<(), RadioError> { self.cmd()?; self.channel = true; self.freq = f; Ok(()) }
@@ -109,7 +110,7 @@ fn consistent(l: &LoRa<Chip, MockDelay>) -> bool {
 pub(crate) fn any_lora() -> LoRa<Chip, MockDelay> {
     let chip = Chip { asleep: tape::boolean(), inited: tape::boolean(), irq: tape::boolean(), modulation: tape::boolean(), packet: tape::boolean(), channel: tape::boolean(), payload: tape::boolean(),
         standby: tape::boolean(), cmds: 0, cmds_while_asleep: 0, started_unconfigured: false, fault_at: if tape::boolean() { tape::below(24) as u32 } else { u32::MAX }, irq_polls: 0, done_seen: false, listen_only: false,
-        freq: tape::u32(), power: tape::i32(), power_tx_prep: false, power_freq: None, started_freq: 0, started_rx: None, payload_len: 0, pkt_len: 0 };
+        freq: tape::u32(), power: tape::i32(), power_tx_prep: false, power_freq: None, started_freq: 0, started_rx: None, payload_len: 0, pkt_len: 0, mod_sf: None, mod_bw: None, mod_freq: 0 };
     let l = LoRa { radio_kind: chip, delay: MockDelay, radio_mode: any_radio_mode(), sync_word: 0x3444, cold_start: tape::boolean(), calibrate_image: tape::boolean() };
     kani::assume(consistent(&l));
     // a chip that lost its configuration has lost all of it
